@@ -23,6 +23,9 @@ theorem pack48_unpack48 (b : Bytes) (h : b.length = 6) : ∃ x, unpack48 b = .ok
 theorem pack48_refuses (x : Nat) (h : 2 ^ 48 ≤ x) : pack48 x = .error .struct := pack48_error x h
 theorem unpack48_refuses (b : Bytes) (h : b.length ≠ 6) : unpack48 b = .error .struct := unpack48_error b h
 
+example : pack48 0x01005E000001 = .ok [0x01, 0x00, 0x5E, 0x00, 0x00, 0x01] ∧
+    unpack48 [0x01, 0x00, 0x5E, 0x00, 0x00, 0x01] = .ok 0x01005E000001 := ⟨rfl, rfl⟩
+
 /-! ### Ethernet, every (vlan × fcs) nesting -/
 
 /-- `Ethernet.pack(fcs)` emits dst, src, [0x8100, tag], type, payload, [FCS = little-endian CRC-32 of everything
@@ -101,6 +104,36 @@ theorem IP_reencode (t : IP) (h p pad : Bytes) (hlen : h.length = 20) (h0 : beNa
     (IP.pack (IP.unpack t (h ++ (p ++ pad))).1).2 = .ok (h ++ p) :=
   Lemmas.Net.IP_reencode t h p pad hlen h0 hck htot
 
+/-- … and the decode step of `IP_reencode` succeeds and yields exactly the wire fields: flags = top three bits of
+    byte 6, fragment offset = the remaining 13 bits × 8, the payload `p` without the padding — whatever the
+    object held before (only its un-decoded attributes survive) -/
+theorem IP_reencode_decoded (t : IP) (h p pad : Bytes) (hlen : h.length = 20)
+    (htot : beNat (slice h 2 4) = 20 + p.length) :
+    (IP.unpack t (h ++ (p ++ pad))).2 = .ok () ∧
+    (IP.unpack t (h ++ (p ++ pad))).1.payload = p ∧
+    (IP.unpack t (h ++ (p ++ pad))).1.flags = beNat (slice h 6 7) / 32 ∧
+    (IP.unpack t (h ++ (p ++ pad))).1.fragment_offset = (beNat (slice h 6 7) % 32 * 256 + beNat (slice h 7 8)) * 8 ∧
+    (IP.unpack t (h ++ (p ++ pad))).1.len = 20 + p.length := by
+  have hb : ∀ a b, b ≤ 20 → fld (h ++ (p ++ pad)) a b = fld h a b := by
+    intro a b hb; simp only [fld]; rw [slice_append_left _ _ (by omega)]
+  have htot' : fld h 2 4 = 20 + p.length := htot
+  have hp : slice (h ++ (p ++ pad)) 20 (fld h 2 4) = p := by
+    rw [htot']; exact slice_mid _ _ _ _ _ hlen.symm (by rw [hlen])
+  rw [IP_unpack_eq _ _ (by simp [hlen])]
+  simp only [hb 2 4 (by omega), hb 6 7 (by omega), hb 7 8 (by omega), hp]
+  exact ⟨trivial, trivial, rfl, rfl, htot'⟩
+
+/-- joint witness for `IP_reencode` / `IP_reencode_decoded`: a wire header with flags 5 (both DF-side bits and
+    the reserved bit pattern `101`), fragment offset 8, a 3-byte payload and 2 bytes of link padding -/
+example :
+    let h : Bytes := [69, 0, 0, 23, 0, 1, 160, 1, 64, 17, 19, 26, 192, 168, 28, 16, 235, 0, 0, 1]
+    let p : Bytes := [1, 2, 3]
+    h.length = 20 ∧ beNat (slice h 0 1) = 0x45 ∧
+    slice h 10 12 = beBytes 2 (Spec.rfc1071 (List.take 10 h ++ ([0, 0] ++ List.drop 12 h))) ∧
+    beNat (slice h 2 4) = 20 + p.length ∧
+    (IP.unpack IP.fresh (h ++ (p ++ [0, 0]))).1.flags = 5 ∧
+    (IP.unpack IP.fresh (h ++ (p ++ [0, 0]))).1.fragment_offset = 8 := by decide
+
 /-! ### UDP -/
 
 theorem UDP_pack_layout (s : UDP) (h : UDP_WF s) :
@@ -153,5 +186,12 @@ theorem PcapRecord_roundtrip (r : Rec) (rest : Bytes) (h : Rec_WF r) :
     ∃ b, (Rec.pack r).2 = .ok b ∧ nextRec (b ++ rest) = some (r, b.length) := by
   refine ⟨recBytes r, by rw [Rec_pack_eq r h.fits], ?_⟩
   rw [nextRec_recBytes r rest h]; simp
+
+open Acra.Model.Pcap Acra.Lemmas.Pcap in
+/-- witnesses: a record whose length fields are in step with a non-empty payload (`Rec_WF`, hence `Rec_fits`);
+    `Rec_fits` alone also allows a record whose `orig_len` exceeds the captured length (a snapped packet) -/
+example : Rec_WF { Rec.fresh with sec := 0x5F000000, usec := 999999, incl_len := 3, orig_len := 3, payload := [1, 2, 3] } ∧
+    Rec_fits { Rec.fresh with sec := 1, usec := 2, incl_len := 3, orig_len := 1500, payload := [1, 2, 3] } := by
+  simp [Rec_WF, Rec_fits]
 
 end Acra.Props.C02
